@@ -54,6 +54,7 @@ func probeMain(args []string) {
 	idxMod := fs.Int("idxmod", -1, "with -fam: only case indexes with idx%4 == idxmod")
 	only := fs.String("only", "", "")
 	par := fs.String("par", "2", "parallelism list for 6.x+ (eu=wu)")
+	wuPar := fs.Int("wupar", 0, "if > 0: number of write units (6.x), independent of -par")
 	mem := fs.Bool("mem", true, "")
 	br := fs.Bool("branch", true, "")
 	jumps := fs.Bool("jumps", true, "")
@@ -83,7 +84,11 @@ func probeMain(args []string) {
 			for _, ps := range strings.Split(*par, ",") {
 				var x int
 				fmt.Sscan(ps, &x)
-				cfgs = append(cfgs, config{V: v, EU: x, WU: x})
+				w := x
+				if *wuPar > 0 {
+					w = *wuPar
+				}
+				cfgs = append(cfgs, config{V: v, EU: x, WU: w})
 			}
 		} else {
 			cfgs = append(cfgs, config{V: v})
